@@ -336,4 +336,22 @@ def threadStartOK (ts : List (String × String)) : Bool :=
   ts.any (fun t => t.2 == "janet_ev_threaded_call: msg.argi := flags" || t.2 == "janet_ev_threaded_await: argi := flags") &&
   ts.contains ("janet_ev_threaded_await", "msg.argi := parameter argi; janet_ev_threaded_call(fp, msg)")
 
+/-- Data-flow shape of the two C functions behind `(sandbox & keywords)`, regenerated by tools/gen/sandbox.py
+    `sandbox_cfun_shape` (loop syntax, block order and local names are free):
+    * vm.c `janet_sandbox` = `sandboxOp`: the `sandbox` capability (mask 1 = `capSandbox`) is asserted first, then
+      `flags |= parameter`, nothing else;
+    * the C function registered as `sandbox` = `sandboxCfun`: exactly one call of `janet_sandbox`; its argument is a local
+      that starts at 0 and is otherwise only or-ed with the `flag` field of an entry of `sandbox_options[]` (the accumulator
+      of `sandboxMask`; the entries are `Gen.Sandbox.options`, compared with `Cap.keywordTable` by `gen_tables`); the entry
+      pointer only takes the values `sandbox_options`, `+1`; an unknown keyword ends in the noreturn `janet_panic*`.
+    Which entry is or-ed in for which keyword (first match by name) is tied by the keyword-sequence scenarios only. -/
+def sandboxShapeFacts : List (String × String) := [
+  ("janet_sandbox", "janet_sandbox_assert(1); flags |= parameter"),
+  ("janet_core_sandbox", "mask := 0; mask |= opt->flag; janet_sandbox(mask)"),
+  ("janet_core_sandbox", "opt := sandbox_options; opt++"),
+  ("janet_core_sandbox", "unknown keyword: janet_panic*; unreachable")]
+
+def sandboxShapeOK (fs : List (String × String)) : Bool :=
+  fs.all (fun f => sandboxShapeFacts.contains f) && sandboxShapeFacts.all (fun f => fs.contains f)
+
 end JanetModel.Sandbox
